@@ -159,7 +159,7 @@ var assets = []string{"testpic_2s", "testpic_2s", "testpic_8s", "testpic_alt_seg
 
 var files = []string{"Manifest.mpd", "Manifest.mpd", "Manifest_thumbs.mpd", "Manifest_imsc1.mpd", "Nope.mpd", ".mpd", "V300/init.mp4", "A48/init.mp4", "V300/$N$.m4s", "A48/$N$.m4s", "V300/$N$.m4s",
 	"imsc1_txt_sv/$N$.m4s", "thumbs/$N$.jpg", "NoRep/$N$.m4s", "V300/$N$.xyz", "V300/$N$.cmfv", "timestpp-en/$N$.m4s", "timestpp-en/init.mp4", "timestpp-xx/init.mp4", "timewvtt-sv/$N$.m4s",
-	"bu0/V300/$N$.m4s", "bu1/V300/$N$.m4s", "bu5/V300/$N$.m4s", "bu-1/V300/$N$.m4s", "bux/V300/$N$.m4s", "V300/", "V300", "", "..%2f..%2fetc/passwd.mp4", "video_$N$.m4s", "1/$N$.m4s", "eccp.json"}
+	"bu0/V300/$N$.m4s", "bu1/V300/$N$.m4s", "bu2/V300/$N$.m4s", "bu2/A48/$N$.m4s", "bu3/V300/$N$.m4s", "bu5/V300/$N$.m4s", "bu-1/V300/$N$.m4s", "bux/V300/$N$.m4s", "V300/", "V300", "", "..%2f..%2fetc/passwd.mp4", "video_$N$.m4s", "1/$N$.m4s", "eccp.json"}
 
 var segNums = []string{"0", "1", "2", "3", "10", "100", "498", "499", "500", "501", "4294967295", "4294967296", "4294967297", "18446744073709551616", "99999999999999999999", "-1", "abc", "1.5", "", "90000000", "89820000", "45000000", "44999999", "180000"}
 
